@@ -58,3 +58,23 @@ package storage
 //@   ensures [rounds-kept] err == nil ==> forall h crypto.Hash :: {SHasRound(StoreVer(recv), h)} h != node && h != references.Self ==>
 //@       SHasRound(StoreVer(recv), h) == old(SHasRound(StoreVer(recv), h)) && SRoundNodeId(StoreVer(recv), h) == old(SRoundNodeId(StoreVer(recv), h)) &&
 //@       SRoundNumber(StoreVer(recv), h) == old(SRoundNumber(StoreVer(recv), h))
+
+//@ assume func (s Store) UpdateEmptyHeadRound(node, number, references)
+//@   -- one badger transaction: the link node -> external.NodeId := external.Number and a new head record under node with
+//@   -- the new references; Commit last. The implementation panics when the stored head does not match (number, references.Self),
+//@   -- when the external round is unknown or belongs to the same node ("self references loop"), and when snapshots are
+//@   -- stored for (node, number) ("round not empty": NOT modelled here, the kernel tests len(cache.Snapshots) == 0 on its mirror).
+//@   requires references != nil
+//@   requires [head] SHasRound(StoreVer(recv), node) && SRoundNumber(StoreVer(recv), node) == number && SRoundSelf(StoreVer(recv), node) == references.Self
+//@   requires [external] SHasRound(StoreVer(recv), references.External) && SRoundNodeId(StoreVer(recv), references.External) != SRoundNodeId(StoreVer(recv), node)
+//@   modifies ghost storever
+//@   ensures [fail] err != nil ==> StoreVer(recv) == old(StoreVer(recv))
+//@   ensures [link] err == nil ==>
+//@       SLink(StoreVer(recv), node, old(SRoundNodeId(StoreVer(recv), references.External))) == old(SRoundNumber(StoreVer(recv), references.External))
+//@   ensures [links-frame] err == nil ==> forall t crypto.Hash :: {SLink(StoreVer(recv), node, t)}
+//@       t != old(SRoundNodeId(StoreVer(recv), references.External)) ==> SLink(StoreVer(recv), node, t) == old(SLink(StoreVer(recv), node, t))
+//@   ensures [head-rec] err == nil ==> SHasRound(StoreVer(recv), node) && SRoundNodeId(StoreVer(recv), node) == node && SRoundNumber(StoreVer(recv), node) == number &&
+//@       SRoundSelf(StoreVer(recv), node) == references.Self && SRoundExternal(StoreVer(recv), node) == references.External
+//@   ensures [rounds-kept] err == nil ==> forall h crypto.Hash :: {SHasRound(StoreVer(recv), h)} h != node ==>
+//@       SHasRound(StoreVer(recv), h) == old(SHasRound(StoreVer(recv), h)) && SRoundNodeId(StoreVer(recv), h) == old(SRoundNodeId(StoreVer(recv), h)) &&
+//@       SRoundNumber(StoreVer(recv), h) == old(SRoundNumber(StoreVer(recv), h))
